@@ -2,6 +2,8 @@
   C04 — garbage is reclaimed and a finished run leaves nothing behind.
 -/
 import Nlmodel.Proofs.Lemmas.GCReach
+import Nlmodel.Proofs.Lemmas.ManagedInv
+import Nlmodel.Proofs.Lemmas.TypeInv
 import Nlmodel.Model.Pipeline
 namespace Nl
 namespace C04
@@ -115,6 +117,67 @@ theorem C04_destroy_frees (m : Mem) (a : Nat) (hm : a ∈ m.managed) (hb : a < m
 theorem C04_error_exit_releases_all (s : VM) (a : Nat) (hm : a ∈ s.mem.managed) (hb : a < s.mem.heap.cells.size) :
     (finishError s).mem.heap.isLive a = false ∧ (finishError s).mem.managed = [] :=
   ⟨C04_destroy_frees s.mem a hm hb, rfl⟩
+
+/-- IN EVERY STATE ANY RUN REACHES — any program, fresh machine or session, after any number of
+    instructions, however the run ends — the collector's list names no address twice and names only
+    allocated addresses: a sweep or the final drop releases each object at most once -/
+theorem C04_managed_never_lists_twice (prev : VM) (bc : Bytecode) (n : Nat) :
+    (runSteps bc.code n (prev.start bc)).MemP ManOK := run_manOK prev bc n
+
+/-- the normal end of ANY run: handing the result over (`untrace`) and dropping the collector frees
+    exactly what a collection with the result as its only root frees, and the collector is left empty -/
+theorem C04_handover_is_collection (prev : VM) (bc : Bytecode) (n : Nat) (v : Value) (s : VM)
+    (h : runSteps bc.code n (prev.start bc) = .value v s) :
+    (finishValue v s).mem.heap = (GC.run s.mem [v]).heap ∧ (finishValue v s).mem.managed = [] := by
+  have := run_manOK prev bc n
+  rw [h] at this
+  exact ⟨finish_is_collection s.mem v this.1, rfl⟩
+
+/-- ... so everything the run allocated that is not part of the result is released -/
+theorem C04_handover_releases_the_rest (prev : VM) (bc : Bytecode) (hp : TI.WT prev) (n : Nat) (v : Value) (s : VM)
+    (h : runSteps bc.code n (prev.start bc) = .value v s)
+    (a : Nat) (hm : a ∈ s.mem.managed) (hun : ¬ Reach s.mem.heap s.mem.managed [v] a) :
+    (finishValue v s).mem.heap.isLive a = false := by
+  have hwt := TI.run_wt prev bc hp n
+  rw [h] at hwt
+  obtain ⟨κ, hw, hv⟩ := hwt
+  have hk := TI.heapKindOK hw.heap
+  have hkv := TI.kindOK_of_valOK hw.heap v hv
+  have hok := run_manOK prev bc n
+  rw [h] at hok
+  rw [(C04_handover_is_collection prev bc n v s h).1]
+  exact C04_garbage_released s.mem [v] hk (fun w hw => by simp at hw; subst hw; exact hkv) a hm (hok.2 a hm) hun
+
+/-- ... and the result stays valid after the interpreter is gone: its deep view (every nested array,
+    string and float the caller can reach from it) is what it was at `Halt`, provided every live
+    array of the heap is managed by this run's collector (true of a fresh machine; the hypotheses on
+    value kinds are discharged by type soundness, `TI.run_wt`) -/
+theorem C04_handover_keeps_result (prev : VM) (bc : Bytecode) (hp : TI.WT prev) (n : Nat) (v : Value) (s : VM)
+    (h : runSteps bc.code n (prev.start bc) = .value v s)
+    (harr : ∀ a, s.mem.heap.arrAt a ≠ [] → a ∈ s.mem.managed) (f : Nat) (p : List Nat) :
+    (finishValue v s).mem.heap.tree f p v = s.mem.heap.tree f p v := by
+  have hwt := TI.run_wt prev bc hp n
+  rw [h] at hwt
+  obtain ⟨κ, hw, hv⟩ := hwt
+  have hk := TI.heapKindOK hw.heap
+  have hkv := TI.kindOK_of_valOK hw.heap v hv
+  have hok := run_manOK prev bc n
+  rw [h] at hok
+  exact finish_tree s.mem v hk hkv hok.1 harr f p
+
+/-- C04 AT EVERY COLLECTION POINT OF EVERY RUN, without hypotheses on the heap: in any state a run of
+    any program has reached, a collection whose roots are values the machine holds (the collections at
+    `Return`/`ReturnValue` pass stack, constants, globals, the last-popped register and the result)
+    keeps exactly the managed objects reachable from those roots and releases every other one -/
+theorem C04_every_collection_of_every_run_is_precise (prev : VM) (bc : Bytecode) (hp : TI.WT prev) (s : VM)
+    (hs : TI.Reachable bc.code (prev.start bc) s) (roots : List Value)
+    (hroots : ∀ v, v ∈ roots → v ∈ s.stack.toList ++ s.cvals.toList ++ s.globals.toList ++ [s.last])
+    (hne : s.mem.managed.isEmpty = false) (a : Nat) :
+    (a ∈ (run s.mem roots).managed ↔ (a ∈ s.mem.managed ∧ Reach s.mem.heap s.mem.managed roots a)) ∧
+    (a ∈ s.mem.managed → a < s.mem.heap.cells.size → ¬ Reach s.mem.heap s.mem.managed roots a → (run s.mem roots).heap.isLive a = false) := by
+  obtain ⟨hk, hr⟩ := TI.wt_kinds (TI.reachable_wt bc.code _ (TI.start_wt prev bc hp) s hs)
+  have hr' : ∀ v ∈ roots, KindOK s.mem.heap v := fun v hv => hr v (hroots v hv)
+  exact ⟨C04_collect_precise s.mem roots hk hr' hne a, fun hm hb hun => C04_garbage_released s.mem roots hk hr' a hm hb hun⟩
 
 end C04
 end Nl
